@@ -9,10 +9,10 @@ import sys
 import threading
 
 RELATED = {
-    "C01": "C01,C02,C03,C10", "C02": "C02,C01,C16", "C03": "C03,C01,C09", "C04": "C04,C09,C10,C06", "C05": "C05,C06,C07",
-    "C06": "C06,C05,C10,C04", "C07": "C07,C05,C01", "C08": "C08,C01,C03", "C09": "C09,C03,C04", "C10": "C10,C11,C01",
-    "C11": "C11,C10,C03", "C12": "C12,C10,C01", "C13": "C13,C05", "C14": "C14,C15", "C15": "C15,C14,C01",
-    "C16": "C16,C02,C01", "C17": "C17,C01,C12", "C18": "C18,C05", "C19": "C19,C03", "C20": "C20,C07",
+    "C01": "C01,C02,C03,C10", "C02": "C02,C01,C16,C03", "C03": "C03,C01,C09,C19", "C04": "C04,C09,C10,C06,C20", "C05": "C05,C06,C07,C12",
+    "C06": "C06,C05,C10,C04,C12", "C07": "C07,C05,C01", "C08": "C08,C01,C03,C05", "C09": "C09,C03,C04,C11", "C10": "C10,C11,C01,C18,C19,C04",
+    "C11": "C11,C10,C03,C09", "C12": "C12,C10,C01", "C13": "C13,C05", "C14": "C14,C15,C16", "C15": "C15,C14,C01",
+    "C16": "C16,C02,C01", "C17": "C17,C01,C12", "C18": "C18,C05,C14,C16", "C19": "C19,C03", "C20": "C20,C07",
 }
 ALL = ",".join(f"C{i:02d}" for i in range(1, 21))
 
